@@ -9,6 +9,7 @@ import (
 
 	"github.com/rqlite/rqlite/v10/db"
 	"github.com/rqlite/rqlite/v10/internal/rsum"
+	"github.com/rqlite/rqlite/v10/internal/vhook"
 	"github.com/rqlite/rqlite/v10/snapshot/sidecar"
 )
 
@@ -101,9 +102,11 @@ func (e *Executor) Checkpoint(dbPath string, wals []string) (int, error) {
 		if err := os.Rename(wal, walPath); err != nil {
 			return 0, fmt.Errorf("moving WAL %s: %w", wal, err)
 		}
+		vhook.Point("plan.ckpt.after_rename")
 		if err := db.CheckpointRemove(dbPath); err != nil {
 			return 0, fmt.Errorf("checkpointing WAL: %w", err)
 		}
+		vhook.Point("plan.ckpt.after_remove")
 	}
 	return n, nil
 }
